@@ -35,6 +35,7 @@ import (
 	"path/filepath"
 	"strconv"
 	"strings"
+	"sync/atomic"
 	"time"
 
 	imodels "github.com/influxdata/influxdb/models"
@@ -409,6 +410,9 @@ type runner struct {
 	timeouts  int
 	waitLimit time.Duration
 	store     *snapStore
+	noise     int64 // points of the background writer handed to WritePoints so far (atomic)
+	noiseStop chan struct{}
+	noiseDone chan struct{}
 	wrote     map[int64]*wpoint
 	epochs    map[string][]epoch // sink key -> which from-node definition recorded from which index on
 	hung      string // set when a call into the real code did not return (the process must then exit)
@@ -418,6 +422,45 @@ type epoch struct {
 	from int // index into the sink's recording at which this incarnation begins
 	def  *taskDef
 	i    int
+}
+
+// startNoise (race-detector runs): a background goroutine keeps writing points to a database no task declares, so
+// that forkPoint runs concurrently with StartTask / StopTask / DeleteTask (which the harness otherwise serialises
+// against the forking of the case's own points). The noise reaches no sink.
+func (r *runner) startNoise() {
+	r.noiseStop, r.noiseDone = make(chan struct{}), make(chan struct{})
+	go func() {
+		defer close(r.noiseDone)
+		for n := int64(0); ; n++ {
+			select {
+			case <-r.noiseStop:
+				return
+			default:
+			}
+			mp, err := imodels.NewPoint("noise", imodels.NewTags(nil), imodels.Fields{"n": n}, baseTime)
+			if err != nil {
+				return
+			}
+			atomic.AddInt64(&r.noise, 1)
+			if r.tm.TM.WritePoints("d9", "noise", imodels.ConsistencyLevelAll, []imodels.Point{mp}) != nil {
+				atomic.AddInt64(&r.noise, -1)
+				return
+			}
+			time.Sleep(20 * time.Microsecond)
+		}
+	}()
+}
+
+func (r *runner) stopNoise() {
+	if r.noiseStop == nil {
+		return
+	}
+	close(r.noiseStop)
+	select {
+	case <-r.noiseDone:
+	case <-time.After(2 * time.Second): // the writer is stuck in WritePoints: the forking goroutine is blocked
+	}
+	r.noiseStop = nil
 }
 
 // call runs one call into the real code under a watchdog: a TaskMaster call that blocks for ever (e.g. StopTask
@@ -466,8 +509,11 @@ func (r *runner) waitForked() {
 		return
 	}
 	deadline := time.Now().Add(r.limit())
+	// The write_points edge is FIFO and the noise counter runs ahead of the noise actually queued, so once this many
+	// points have been forked, every point of the case written so far is among them.
+	want := r.written + atomic.LoadInt64(&r.noise)
 	for i := 0; ; i++ {
-		if ingressSum()-r.base >= r.written {
+		if ingressSum()-r.base >= want {
 			return
 		}
 		if time.Now().After(deadline) {
@@ -914,6 +960,7 @@ func execCase(ops []string) (out []string, hung string) {
 		}
 	}
 	var lines [][]string
+	noisy := false
 	for _, raw := range ops {
 		line := raw
 		if i := strings.Index(line, " => "); i >= 0 {
@@ -926,6 +973,7 @@ func execCase(ops []string) (out []string, hung string) {
 		if t[0] == "cfg" && len(t) >= 2 {
 			r.defRP, _ = kit.Unesc(t[1])
 			r.http = len(t) >= 3 && t[2] == "http"
+			noisy = len(t) >= 4 && t[3] == "noise"
 		}
 		lines = append(lines, t)
 	}
@@ -949,6 +997,9 @@ func execCase(ops []string) (out []string, hung string) {
 	}
 	tm.HTTPD.Handler.PointsWriter = tm.TM // the shared httpd service writes into this case's TaskMaster
 	r.base = ingressSum()
+	if noisy {
+		r.startNoise()
+	}
 	guard := func(line string, f func() string) {
 		defer func() {
 			if rec := recover(); rec != nil {
@@ -1075,6 +1126,7 @@ func execCase(ops []string) (out []string, hung string) {
 		}
 	}
 	// final read-out: everything forked, every running task's sinks complete and quiet, then close
+	r.stopNoise()
 	r.waitForked()
 	all := map[string]bool{}
 	for id := range r.running {
